@@ -60,8 +60,8 @@ CLAIMED = {
  "C10": ("necessary structural conditions decided for all graphs and target specifications: the configured instantiation property is the only "
          "one consulted (who-may-use audit of the rdf:type constants, provenance at the recognition sites, forwarding at every call site), a "
          "node keeps every class/label it was selected for, tracker and strategy selection tables equal the property statement, siblings agree. "
-         "Selector parsing and SPARQL evaluation are not decided", "4 C10",
-         "who-may-use lint on constants, context-sensitive provenance over the value-flow graph, call-site forwarding lint, decision tables by abstract evaluation, twin comparison (R-CONST, R-FLOW, R-PLUMB, R-TABLE, R-TWIN, R-COUNT)"),
+         "Selector parsing is decided on a table of representative selectors (default prefix included) and the parsers' find() sentinels are audited; SPARQL evaluation is not decided", "4 C10",
+         "who-may-use lint on constants, context-sensitive provenance over the value-flow graph, call-site forwarding lint, decision tables by abstract evaluation, twin comparison (R-CONST, R-FLOW, R-PLUMB, R-TABLE, R-TWIN, R-COUNT, R-SENT)"),
  "C16": ("decision tables of the cap acceptance/counting variants, of the strategy composition and of the direct-child namespace predicate "
          "(complete over their abstract domains), value-flow proof that namespaces_to_ignore reaches the feature pass only, twins of the cap "
          "variants. Equality of complete outputs with the restricted document is not decided", "4 C16",
